@@ -21,7 +21,9 @@ func init() {
 		Run: func(c *Ctx) {
 			runC17(c)
 			runToStrCases(c, "C17-PATHKEY")
-			base(c, "DECLARED", "STATE", "ALIAS", "LOOP", "TEXT", "MAT")
+			runAllElems(c, "C17-ALLELEMS")
+			runLiveSettings(c, "C17-LIVE")
+			base(c, "DECLARED", "STATE", "ALIAS", "LOOP", "TEXT", "MAT", "RULESRC", "EXPORT", "FACADE")
 			importSome(c, "C18", runC18, "C17-URLVALUE", "a URL parameter registered as a group member carries its own, whole value: everything after the first '=' of its own text (obligations first-equals and own-text of rule C18-URL) — a value cut at a later '=' makes two different parameters look equal to botheq, or an '=…' value look empty to either", 2, func(key string) bool {
 				return strings.HasSuffix(key, "/first-equals") || strings.HasSuffix(key, "/own-text")
 			})
